@@ -168,6 +168,32 @@ pub fn drive_hashes_scaled(a: &Args, w: &Words, prefix: &str, budget: usize) {
         ev_hp(&mut sh, &mut rng, &data);
         bytes += data.len();
     }
+    // ONE slice of 2^32 + 3 bytes through the slice forms (zero bytes except the last seven; the pages
+    // are never written, so this costs address space, not memory): a length narrowed to 32 bits
+    // anywhere in the slice path shows here.  Only in optimised builds (about 4 s; minutes otherwise).
+    if !cfg!(debug_assertions) && prefix == "hash" {
+        sh.next_unit();
+        let n: usize = (1usize << 32) + 3;
+        let r = std::panic::catch_unwind(|| {
+            let mut big = vec![0u8; n];
+            let tail = [0x11u8, 0x7f, 0x03, 0xe0, 0x55, 0x9a, 0xfe];
+            big[n - 7..].copy_from_slice(&tail);
+            let mut a = RollingHash::new();
+            a.update_by_byte(0xaa);
+            a.update(&big);
+            let mut b = RollingHash::new();
+            b += 0xaau8;
+            b += &big[..];
+            (tail, a.value(), b.value())
+        });
+        match r {
+            Ok((tail, va, vb)) => sh.emit(&format!(
+                "{{\"ev\":\"hpbig\",\"panics\":0,\"n\":{},\"tail\":{},\"rforms\":{{\"slice\":{},\"add_slice\":{}}}}}",
+                jsize(n as u64), jarr_u8(&tail), jw32(va), jw32(vb)
+            )),
+            Err(_) => sh.emit(&format!("{{\"ev\":\"hpbig\",\"panics\":1,\"n\":{},\"tail\":[0,0,0,0,0,0,0],\"rforms\":{{\"slice\":[0,0]}}}}", jsize(n as u64))),
+        }
+    }
     // windows that stress the 32-bit arithmetic: all 0xff, alternating, words with extreme hashes
     for pat in [vec![255u8; 40], (0..40).map(|i| if i % 2 == 0 { 255 } else { 0 }).collect::<Vec<u8>>(), (0..64).map(|i| (i * 37 % 256) as u8).collect()] {
         sh.next_unit();
